@@ -30,7 +30,7 @@ func (c13) Assumptions() []string {
 }
 
 func (c13) Batches(tier string, seed uint64) []core.Batch {
-	return append(spread("ar", 16, tierN(tier, 900, 6000)), core.Batch{Name: "huge"})
+	return append(append(spread("ar", 16, tierN(tier, 900, 6000)), core.Batch{Name: "huge"}), conc(tierN(tier, 60, 400), "ar")...)
 }
 
 func (c13) Mandatory(tier string) []string {
@@ -328,6 +328,9 @@ func firstDiff(a, b []byte) int {
 }
 
 func (p c13) RunBatch(t *core.T, b core.Batch) {
+	if concDispatch(p, t, b) {
+		return
+	}
 	if b.Name == "huge" {
 		for _, sz := range []int64{1 << 31, 1<<31 + 1, 1<<32 + 2, 1<<32 + 7, 9999999999} {
 			sz := sz
